@@ -87,7 +87,7 @@ def explore(cmd, cell, send):
         faulthandler.cancel_dump_traceback_later()
         agg["runs"] += 1
         for k, v in res["probes"].items():
-            agg["probes"][k] = agg["probes"].get(k, 0) + v
+            agg["probes"][k] = max(agg["probes"].get(k, 0), v) if k.startswith("max_") else agg["probes"].get(k, 0) + v
         for k, v in res["faults"].items():
             agg["faults"][k] = agg["faults"].get(k, 0) + v
         agg["steps"] += res["steps"]
